@@ -341,6 +341,28 @@ func c13Alphabet(cf *c13Cfg, batches [][]c13Pair, importLen, clearLen int) []vx.
 	return a
 }
 
+// c13MiniAlphabet: one column (the last of the configuration: the one in a later container where there
+// is one) x the first two rows, every write path once per row, plus the reads — small enough for
+// histories of length 4-5 (write, read, move the column by another path, read again).
+func c13MiniAlphabet(cf *c13Cfg, batches [][]c13Pair) []vx.Op {
+	ci := len(cf.cols) - 1
+	col := cf.cols[ci]
+	var a []vx.Op
+	for ri := 0; ri < 2; ri++ {
+		a = append(a, vx.O("Set", int64(ci), int64(ri)), vx.O("Clear", int64(ci), int64(ri)), vx.O("ClearRow", int64(ri)))
+	}
+	for i, b := range batches {
+		if len(b) == 1 && b[0].col == col && (b[0].row == cf.rows[0] || b[0].row == cf.rows[1]) {
+			a = append(a, vx.O("Import", int64(i)), vx.O("ImportClear", int64(i)))
+		}
+	}
+	a = append(a, vx.O("rRow"))
+	if cf.kind != "bool" {
+		a = append(a, vx.O("rRows"))
+	}
+	return a
+}
+
 // c13Key: finding key = field kind + failing op kind + shape of the failing op + what went wrong.
 func c13Key(cf *c13Cfg, batches [][]c13Pair, p []vx.Op, got, want string) string {
 	last := p[len(p)-1]
@@ -403,7 +425,7 @@ func c13TwoValues(got string) bool {
 
 func TestVerif_C13(t *testing.T) {
 	c := vx.NewCheck("C13", "model_checking",
-		"all operation sequences (Set, Clear, ClearRow, Import and Import-clear with every batch of length<=3 over 2 columns x 3 rows (2 rows for bool), reads Row()/Rows(column=)) on a real mutex / bool field of an in-process node: exhaustive DFS to the stated depths, then state-merged BFS over (model, storage layout, row cache, rank cache); last-writer-wins model; distinct = distinct canonical end states")
+		"all operation sequences (Set, Clear, ClearRow, Import and Import-clear with every batch of length<=3 over 2 columns x 3 rows (2 rows for bool), reads Row()/Rows(column=)) on a real mutex / bool field of an in-process node: exhaustive DFS to the stated depths (depth 2 full alphabet, depth 3 reduced batches, depth 4/5 over a one-column mini alphabet), then state-merged BFS over (model, storage layout, row cache, rank cache); last-writer-wins model; distinct = distinct canonical end states")
 	var nodesMu sync.Mutex
 	var nodes []*c13Node
 	pool := &sync.Pool{New: func() interface{} {
@@ -463,6 +485,12 @@ func TestVerif_C13(t *testing.T) {
 			c.RunDFS(hSmall, 4)
 			c.ConfirmViolations(hSmall)
 		}
+		// Phase A3: longer histories over the one-column mini alphabet (reads between writes matter:
+		// they fill the row cache that a later write by another path has to invalidate).
+		hMini := &vx.Harness{MultiProcess: true, Alphabet: c13MiniAlphabet(cf, batches), New: newInst, Key: key}
+		c.RunDFS(hMini, c.Pick(4, 5))
+		c.ConfirmViolations(hMini)
+		c.Bound(fmt.Sprintf("alphabet_mini_%s_cols%v_rows%v", cf.kind, cf.cols, cf.rows), len(hMini.Alphabet))
 		// Phase B: state-merged BFS, full alphabet.
 		c.RunBFS(hFull, c.Pick(3, 8), c.Pick(5000, 30000))
 		c.ConfirmViolations(hFull)
